@@ -439,6 +439,7 @@ package sam
 //@   after append#2: assert [column.del] implies(operation == "D", forall(j, 0, size, newSeqArray[len(newSeqArray) - size + j] == '-'))
 //@   ensures (result3 != nil) == (samLine.Pos < 0)
 //@   ensures [rows] implies(result3 == nil && includeInsertions, len(result1) == len(result2))
+//@   ensures [len.noins] implies(result3 == nil && !includeInsertions, len(result1) == len(reference))
 //@   ensures [leading] implies(result3 == nil, len(result1) >= samLine.Pos && len(result2) >= samLine.Pos && forall(j, 0, samLine.Pos, result1[j] == '*' && result2[j] == reference[j]))
 
 //@ # flattening one alignment column of a multi-record query
@@ -830,10 +831,10 @@ package sam
 //@     invariant len(sent(cPair)) == range_i
 //@     invariant forall(t, 0, range_i, sent(cPair)[t].idx == recv(cSR)[t].idx && sent(cPair)[t].queryname == recv(cSR)[t].records[0].Name)
 //@   loop 2:
-//@     invariant len(sent(cPair)) == range_i1 && len(seqs) == range_i && len(cigars) == range_i && len(positions) == range_i
+//@     invariant len(sent(cPair)) == range_i1 && len(seqs) == range_i && len(cigars) == range_i && len(positions) == range_i && freshslice(seqs) && freshslice(cigars) && freshslice(positions)
 //@     invariant forall(k, 0, range_i, seqs[k].queryname == group.records[k].Name && len(seqs[k].ref) == len(seqs[k].query) && positions[k] == group.records[k].Pos && positions[k] >= 0)
 //@   loop 3:
-//@     invariant len(sent(cPair)) == range_i1 && len(Q) == range_i
+//@     invariant len(sent(cPair)) == range_i1 && len(Q) == range_i && freshslice(Q) && forall(k, 0, range_i, len(Q[k]) == len(ref))
 //@   before call:getOneLinePlusRef#1: assert [c02.record.rows] arg(0) == line && sameslice(arg(1), ref) && arg(2) == true && !omitIns
 //@   before call:getOneLinePlusRef#2: assert [c02.record.rows.noins] arg(0) == line && sameslice(arg(1), ref) && arg(2) == false && omitIns
 //@   before call:blockToSeqPair#1: assert [c02.block] sameslice(arg(0).seqpairArray, seqs) && sameslice(arg(0).cigarArray, cigars) && sameslice(arg(0).posArray, positions) && sameslice(arg(1), ref) && len(seqs) == len(group.records)
